@@ -41,6 +41,18 @@ C['C08']=("Two-run relational symbolic execution of the whole build: 5 skeleton 
 C['C09']=("Two-run relational symbolic execution: skeleton project vs. the same project with a run of directive blocks (symbolic cut position, 1..3/8 blocks, depth 1 and 2) moved into an INCLUDEd file through the real scanner stack / processInclude / virtual file system; symbolic line end after INCLUDE and tail of the included file. Equal catalog digest, or the same error class located in the file that now holds the directive.",
  "Bounds: 5 skeletons, cuts at directive boundaries, include depth <= 2. Catalog equality on the in-package digest (see C08). "+COMMON_TRUST,
  "concolic symbolic execution of go/ssa + SMT (z3), two-run relational harness over include splits","§4 C09")
+C['C02']=("Model round-trip with symbolic model features: an abstract API model (INFO, SERVER, TAG, TYPE, ENUM, 1..2 HTTP interactions with annotation/description/query/request/responses/headers/tags/OperationId) is rendered to JSight text (URL grouping or stand-alone, explicit or implicit contexts, // or /* */), built by the real code, and the catalog digest must equal the digest computed from the model alone; 8-10 feature choices per job are symbolic (all combinations explored), the others fixed by seed.",
+ "Bounds: <=2 interactions, HTTP only, feature combinations beyond the symbolic subset of a job are outside; equality on the in-package digest, not the JSON bytes (encoding/json is outside the engine). "+COMMON_TRUST,
+ "concolic symbolic execution of go/ssa + SMT (z3) over model feature choices, differential against a model-derived expected catalog","§4 C02")
+C['C03']=("Fault injection with symbolic fault class, placement and names: 28 fault classes x {root file, INCLUDEd file, pasted MACRO body} must be rejected with the message of the class on the file and line of the offending directive (real NewLocation); a directive with a symbolic 2-byte name is a duplicate exactly when the solver makes the name equal to the existing one; JSIGHT missing / not first / wrong (symbolic) version.",
+ "Bounds: one base document per harness, the catalogue of fault classes in harness/core/zz_verif_c03.go; rule/example mismatches inside schemas belong to jsight-schema-core. "+COMMON_TRUST,
+ "concolic symbolic execution of go/ssa + SMT (z3) over fault class / placement / name bytes","§4 C03")
+C['C05']=("Closure invariants asserted on the catalog structs of every accepted document of several symbolic document families (TAG/Tags model with symbolic tag choices incl. repeated and undeclared tags; representative documents with 2-byte symbolic holes; INCLUDE-split and MACRO/PASTE rewrites): interaction key == id == protocol/method/path, tag <-> interaction relation exact and single, pathVariables iff {parameters}, response codes/body, JSIGHT 0.3.",
+ "Bounds as in evidence.assumptions; usedUserTypes/usedUserEnums and the JSON rendering are outside (jsight-schema-core / encoding/json). "+COMMON_TRUST,
+ "concolic symbolic execution of go/ssa + SMT (z3); catalog invariants as assertions","§4 C05")
+C['C06']=("Each project is built with insertion-ordered maps and again with ONE range-over-map site (numbered in execution order, repository and jsight-schema-core alike) iterating in a symbolic order (Lehmer-coded permutation <=4 entries, rotation+reversal above); the solver searches for an order that changes accept/reject, message, file, index, include trace or the catalog digest. Plus a static SSA scan of nondeterminism sources.",
+ "Bounds: one perturbed site at a time; 8-10 projects; interactions of two sites, cross-process effects other than map order and encoding/json are outside. Counterexamples are confirmed natively by rebuilding 200 times. "+COMMON_TRUST,
+ "concolic symbolic execution of go/ssa with symbolic map iteration order + SMT (z3), two-run comparison; static SSA scan","§4 C06")
 checks=[]
 for pid in sorted(C):
     text,note,tech,design=C[pid]
